@@ -81,7 +81,7 @@ impl Property for C13 {
         ]
     }
     fn cases(&self, tier: Tier) -> u64 {
-        tier.pick(40_000, 1_500_000)
+        tier.pick(600_000, 10_000_000)
     }
     fn exhaustive_note(&self, tier: Tier) -> Option<String> {
         Some(match tier {
